@@ -1338,9 +1338,39 @@ fn require_strings<'a>(t: &'a RTree<'a>) -> Vec<(usize, &'a Vec<pt::StringLitera
     }
     out
 }
+/// `revert("...")` statements and `revert(...)` calls with a string literal last: the statement speaks of `require` only,
+/// so whether these are reported too is open (gray), on the side of the version
+fn revert_strings(t: &RTree) -> Vec<usize> {
+    let mut out = Vec::new();
+    for (i, n) in t.nodes.iter().enumerate() {
+        match n.pt {
+            PtRef::Stmt(pt::Statement::Revert(_, _, args)) => {
+                if matches!(args.last(), Some(E::StringLiteral(_))) {
+                    out.push(i);
+                }
+            }
+            PtRef::Expr(E::FunctionCall(_, callee, args)) => {
+                if ident(callee) == Some("revert") && matches!(args.last(), Some(E::StringLiteral(_))) {
+                    out.push(i);
+                }
+            }
+            _ => {}
+        }
+    }
+    out
+}
 fn r_string_errors(t: &RTree) -> Vec<Verdict> {
     let ver = file_version(t);
     let mut out = Vec::new();
+    for i in revert_strings(t) {
+        let listed = match &ver {
+            Version::Exact(a, b, c) => (*a, *b, *c) >= (0, 8, 4),
+            Version::Undefined => true,
+        };
+        if listed {
+            out.push(v(t, i, false, "revert with string"));
+        }
+    }
     for (i, parts) in require_strings(t) {
         let (must, listed) = match &ver {
             Version::Exact(a, b, c) => ((*a, *b, *c) >= (0, 8, 4), (*a, *b, *c) >= (0, 8, 4)),
@@ -1359,6 +1389,15 @@ fn r_string_errors(t: &RTree) -> Vec<Verdict> {
 fn r_short_revert(t: &RTree) -> Vec<Verdict> {
     let ver = file_version(t);
     let mut out = Vec::new();
+    for i in revert_strings(t) {
+        let listed = match &ver {
+            Version::Exact(a, b, c) => (*a, *b, *c) < (0, 8, 4),
+            Version::Undefined => true,
+        };
+        if listed {
+            out.push(v(t, i, false, "revert with string"));
+        }
+    }
     for (i, parts) in require_strings(t) {
         let first_len = parts[0].string.len();
         let total: usize = parts.iter().map(|p| p.string.len()).sum();
@@ -1586,7 +1625,12 @@ pub fn check_text(text: &str, tok_offs: &[usize], label: &str, detectors: &[Dete
         // exactly as many lines are reported as there are canonical constructs, the reported lines must
         // be anchor lines; a different line set of the same size is a construct reported at a wrong line
         let containers = verdicts.iter().any(|x| matches!(x.kind, "ContractDefinition" | "StructDefinition"));
-        if mode == Mode::LocationOnly && !containers && must_n > 0 && verdicts.len() == must_n && got.len() == must_n && got.iter().any(|l| !anchor_lines.contains(l)) {
+        let node_start_inside = |l: &i32| {
+            let toks = line_toks.get(l).cloned().unwrap_or_default();
+            verdicts.iter().any(|x| tree.nodes.iter().any(|n| n.class != Class::Aux && n.start >= x.span.0 && n.start < x.span.1 && toks.contains(&n.start)))
+        };
+        let _ = (containers, &node_start_inside);
+        if mode == Mode::LocationOnly && must_n > 0 && verdicts.len() == must_n && got.len() == must_n && got.iter().any(|l| !anchor_lines.contains(l)) {
             let must_lines: BTreeSet<i32> = verdicts.iter().map(|x| crate::layout::line_of(text, x.anchors[0])).collect();
             if must_lines.len() == must_n {
                 res.violations.push(Violation {
@@ -1628,8 +1672,15 @@ pub fn check_text(text: &str, tok_offs: &[usize], label: &str, detectors: &[Dete
                         direct
                     })
             };
+            // which sub-construct of a flagged construct a detector points at is its own choice (the whole `require(...)` call
+            // or its `a && b` condition): admissible is every line on which an expression / statement / declaration node
+            // inside the flagged construct begins. A line on which only a later token of a node stands (a member name,
+            // the second part of a string literal, a closing bracket) is not the first line of any construct.
+            let sub_construct = |x: &Verdict| tree.nodes.iter().any(|n| n.class != Class::Aux && n.start >= x.span.0 && n.start < x.span.1 && toks.contains(&n.start));
             match (mode, inside) {
-                (Mode::LocationOnly, Some(x)) if member_of_container(x) => {}
+                // (C02's anchors name "each detector chooses which node's location to report" as part of the mechanism: the
+                // flagged construct is the documented one, so neither tolerance is applied in location mode)
+                (Mode::LocationOnly, Some(x)) if false && (member_of_container(x) || sub_construct(x)) => {}
                 (Mode::LocationOnly, Some(x)) => res.violations.push(Violation {
                     site: format!("{}:location:{}", d.name, x.kind),
                     input: text.to_string(),
@@ -1668,9 +1719,9 @@ pub fn check_text(text: &str, tok_offs: &[usize], label: &str, detectors: &[Dete
         if mode == Mode::Semantic {
             for x in verdicts.iter().filter(|x| x.must) {
                 let mut ok = x.anchors.iter().any(|&a| got.contains(&crate::layout::line_of(text, a)));
-                // a container (contract, struct) counts as reported by any reported line that lies inside it and not inside
-                // another verdict's construct nested in it: WHERE inside the container the finding points is C02's business
-                if !ok && matches!(x.kind, "ContractDefinition" | "StructDefinition") {
+                // a construct counts as reported by any reported line that lies inside it and not inside another verdict's
+                // construct nested in it: WHERE inside the construct the finding points is C02's business
+                if !ok {
                     let lo = crate::layout::line_of(text, x.span.0);
                     let hi = crate::layout::line_of(text, x.span.1.saturating_sub(1).max(x.span.0));
                     ok = got.iter().any(|&l| {
